@@ -362,6 +362,21 @@ def three_random_schedule(seed, rounds=4):
     return {"name": "three-random-%d" % seed, "nodes": 3, "clients": 3, "seed": seed, "steps": steps, "origin": "random"}
 
 
+def stalled_leader_schedule(seed, rounds=2):
+    """The leader stalls (SIGSTOP) for a little less than the clients' patience while traffic keeps arriving at the
+    followers, which proxy it to the leader they still believe in: whatever a follower answers 200 for must be in
+    the log (a proxy hop that gives up must not look like an acknowledgement)."""
+    rnd = random.Random(seed * 32452843 + 5)
+    steps = setup_steps(3)
+    steps.append({"op": "bg", "count": 4 * rounds})
+    for r in range(rounds):
+        steps += [{"op": "sleep", "ms": 400 + rnd.randrange(600)},
+                  {"op": "pause", "n": "leader"}, {"op": "sleep", "ms": 3200 + rnd.randrange(500)},
+                  {"op": "resumeall"}, {"op": "sleep", "ms": 800}]
+    steps += [{"op": "barrier"}]
+    return {"name": "stalled-leader-%d" % seed, "nodes": 3, "clients": 3, "seed": seed, "steps": steps, "origin": "random"}
+
+
 def f7_schedule(seed):
     """The candidate of DESIGN section 7 row F7 / the counterexample of Cluster_f7.cfg, with
     gates: the followers' FSM goroutines are parked (they still replicate), the
@@ -1284,8 +1299,8 @@ def run(ctx):
     if ctx.quick:
         scheds = [single_gate_schedule(seed), fold_schedule(seed, 1), three_mixed_schedule(seed, safeguard=True), f7_schedule(seed),
                   partition_schedule(seed), isolated_leader_schedule(seed),
-                  latejoin_schedule(seed, fold=(seed % 2 == 0)), grow_schedule(seed)]
-        ntlc, nmem, par = 1, 1, 10
+                  latejoin_schedule(seed, fold=(seed % 2 == 0)), grow_schedule(seed), stalled_leader_schedule(seed)]
+        ntlc, nmem, par = 1, 1, 11
     else:
         scheds = [single_gate_schedule(seed), single_gate_schedule(seed + 1)]
         scheds += [single_random_schedule(seed + i) for i in range(3)]
@@ -1293,6 +1308,7 @@ def run(ctx):
         scheds += [f7_schedule(seed), stale_retry_schedule(seed), fold_schedule(seed, 1), fold_schedule(seed + 1, 1), fold_schedule(seed, 3)]
         scheds += [partition_schedule(seed), partition_schedule(seed + 1), isolated_leader_schedule(seed), isolated_leader_schedule(seed + 1)]
         scheds += [three_random_schedule(seed * 100 + i) for i in range(10)]
+        scheds += [stalled_leader_schedule(seed + i, rounds=3) for i in range(3)]
         scheds += [latejoin_schedule(seed), latejoin_schedule(seed, fold=True), latejoin_schedule(seed + 1), latejoin_schedule(seed + 1, fold=True),
                    grow_schedule(seed, volume=True), grow_schedule(seed + 1), shrinkgrow_schedule(seed), shrinkgrow_schedule(seed + 1)]
         scheds += [member_random_schedule(seed * 100 + i) for i in range(8)]
